@@ -20,113 +20,9 @@
    relay:nonfinal-frame-vs-timer:report-after-End and relay:response-frame-after-timeout-error. *)
 From Coq Require Import ZArith List Bool Lia.
 From Verif Require Import Base.Wrap Gen.GenConsts Gen.GenFrame Model.RelayItems Spec.RelayAccount
-  Proofs.RelayAssocP Proofs.RelayCoreP Proofs.RelayInv9P Proofs.RelayTimerP Proofs.RelayThmP Proofs.RelaySilentP.
+  Model.RelayCalm Proofs.RelayAssocP Proofs.RelayCoreP Proofs.RelayInv9P Proofs.RelayTimerP Proofs.RelayThmP Proofs.RelaySilentP.
 Import ListNotations.
 Local Open Scope Z_scope.
-
-(* ---------------------------------------------------------------- the condition *)
-
-Definition held := list (tid * Z).
-
-(* the call of the live item at key t (at most one) *)
-Definition live_call (st : state) (t : key) : list Z :=
-  match klookup t (items st) with
-  | Some it => if it_tomb it then [] else [it_call it]
-  | None => []
-  end.
-
-Definition nc_key (k : Z) (f : frame) : option key :=
-  match frameTypeFor (f_mt f) with
-  | Some ft => Some (k, (if ft =? c_responseFrame then 1 else 0), f_id f)
-  | None => None
-  end.
-Definition rcv_key (r : rcv) : key := (r_d r, (if r_ft r =? c_requestFrame then 1 else 0), f_id (r_f r)).
-
-(* calls whose live item the Get of handleNonCallReq / Receive returns *)
-Definition gets_i (st : state) (i : instr) : list Z :=
-  match i with
-  | INcGet k f => match nc_key k f with Some t => live_call st t | None => [] end
-  | IRcvGet r => live_call st (rcv_key r)
-  | _ => []
-  end.
-
-(* calls a relayItems operation of instruction i acts on *)
-Definition touches_i (st : state) (i : instr) : list Z :=
-  match i with
-  | INcGet _ _ | IRcvGet _ => gets_i st i
-  | IFailGet t _ | IEntomb t _ | IDelete t => live_call st t
-  | _ => []
-  end.
-
-(* the call RelayHost.Start creates *)
-Definition creates_i (st : state) (i : instr) : list Z :=
-  match i with
-  | IStart _ _ e => if (e_start e =? 0) || (e_start e =? 1) || (e_start e =? 3) then [next_call st] else []
-  | _ => []
-  end.
-
-Definition head_of (st : state) (th : tid) : option instr :=
-  match lookup tid_eqb th (threads st) with Some (i :: _) => Some i | _ => None end.
-
-Definition actor (l : label) : option tid :=
-  match l with LStep th _ => Some th | LFire tm => Some (TT tm) | _ => None end.
-
-Definition touches (st : state) (l : label) : list Z :=
-  match l with
-  | LStep th _ => match head_of st th with Some i => touches_i st i | None => [] end
-  | LFire tm => match lookup Z.eqb tm (timers st) with Some x => live_call st (tm_key x) | None => [] end
-  | _ => []
-  end.
-
-Definition acquires (st : state) (l : label) : list Z :=
-  touches st l ++
-  match l with
-  | LStep th _ => match head_of st th with Some i => creates_i st i | None => [] end
-  | _ => []
-  end.
-
-Definition others_hold (h : held) (th : tid) (c : Z) : bool :=
-  existsb (fun p => negb (tid_eqb (fst p) th) && (snd p =? c)) h.
-
-(* the ghost after the step st --l--> st': the actor holds what it acted on; a goroutine that
-   has nothing left to do holds nothing *)
-Definition held_next (st : state) (l : label) (st' : state) (h : held) : held :=
-  match actor l with
-  | Some th =>
-      let h1 := map (fun c => (th, c)) (acquires st l) ++ h in
-      match lookup tid_eqb th (threads st') with
-      | None => filter (fun p => negb (tid_eqb (fst p) th)) h1
-      | Some _ => h1
-      end
-  | None => h
-  end.
-
-Definition no_overlap_step (st : state) (h : held) (l : label) : bool :=
-  match actor l with
-  | Some th => forallb (fun c => negb (others_hold h th c)) (touches st l)
-  | None => true
-  end.
-
-Definition orig_live (st : state) (c : Z) : bool :=
-  existsb (fun p => (it_call (snd p) =? c) && it_orig (snd p) && negb (it_tomb (snd p))) (items st).
-
-Definition whole_step (st : state) (l : label) : bool :=
-  match l with
-  | LStep th _ => match head_of st th with Some i => forallb (orig_live st) (gets_i st i) | None => true end
-  | _ => true
-  end.
-
-Fixpoint sched (cf : config) (chk : state -> held -> label -> bool) (st : state) (h : held) (ls : list label) : bool :=
-  match ls with
-  | [] => true
-  | l :: r => chk st h l &&
-              match step cf st l with Some st' => sched cf chk st' (held_next st l st' h) r | None => true end
-  end.
-
-Definition calm_chk (st : state) (h : held) (l : label) : bool := no_overlap_step st h l && whole_step st l.
-
-Definition no_overlap (cf : config) (ls : list label) : Prop := sched cf no_overlap_step init [] ls = true.
-Definition calm (cf : config) (ls : list label) : Prop := sched cf calm_chk init [] ls = true.
 
 Lemma sched_weaken : forall cf (c1 c2 : state -> held -> label -> bool), (forall st h l, c1 st h l = true -> c2 st h l = true) ->
   forall ls st h, sched cf c1 st h ls = true -> sched cf c2 st h ls = true.
